@@ -1487,8 +1487,11 @@ get_getter(CPPType *expr_type, string expression,
   ostringstream desc;
   desc << "getter for ";
   if (element != nullptr) {
+    // Describe the element without its initializer, but don't lose it.
+    CPPExpression *initializer = element->_initializer;
     element->_initializer = nullptr;
     element->output(desc, 0, &parser, false);
+    element->_initializer = initializer;
     desc << ";";
   } else {
     desc << expression;
@@ -1560,8 +1563,11 @@ get_setter(CPPType *expr_type, string expression,
   ostringstream desc;
   desc << "setter for ";
   if (element != nullptr) {
+    // Describe the element without its initializer, but don't lose it.
+    CPPExpression *initializer = element->_initializer;
     element->_initializer = nullptr;
     element->output(desc, 0, &parser, false);
+    element->_initializer = initializer;
     desc << ";";
   } else {
     desc << expression;
